@@ -1,2 +1,3 @@
 import DdsProofs.Props.C05
 import DdsProofs.Props.C13
+import DdsProofs.Props.C14
